@@ -426,3 +426,38 @@ func fnargFamily(emit func(kase)) {
 		}
 	}
 }
+
+// boundaryFamily: every comparison between an int64 and a float64 at the places where the exact
+// comparison has a case split — zero, ±2^53 (float64 stops holding every integer), ±2^63 (the int64 range
+// ends; -2^63 is both MinInt64 and a float64, +2^63 is a float64 only) — with the neighbouring values on
+// both sides, in both operand orders and in all four placements (data/data, literal/literal,
+// data/literal, literal/data). Runs in every tier.
+func boundaryFamily(emit func(kase)) (n int) {
+	ints := []int64{
+		math.MinInt64, math.MinInt64 + 1, math.MinInt64 + 1024, -(1 << 62), -p53 - 2, -p53 - 1, -p53, -p53 + 1, -2, -1, 0, 1, 2,
+		p53 - 1, p53, p53 + 1, p53 + 2, 1 << 62, math.MaxInt64 - 1024, math.MaxInt64 - 1, math.MaxInt64,
+	}
+	two63 := 9223372036854775808.0
+	fs := []float64{
+		-two63, math.Nextafter(-two63, 0), math.Nextafter(-two63, math.Inf(-1)), -two63 / 2,
+		two63, math.Nextafter(two63, 0), math.Nextafter(two63, math.Inf(1)), two63 / 2,
+		float64(p53), float64(p53) - 1, float64(p53) + 2, -float64(p53), -float64(p53) + 1, -float64(p53) - 2,
+		0, math.Copysign(0, -1), 0.5, -0.5, 1, -1, 1.5, -1.5, 5e-324, -5e-324,
+		math.Inf(1), math.Inf(-1), math.NaN(), math.MaxFloat64, -math.MaxFloat64,
+	}
+	for _, op := range cmpOps {
+		for _, i := range ints {
+			for _, f := range fs {
+				for _, lr := range [][2]any{{i, f}, {f, i}} {
+					l, r := lr[0], lr[1]
+					emit(kase{t: bin(op, pth(pathL), pth(pathR)), data: []any{elemLR(l, r)}, stream: "boundary"})
+					emit(kase{t: bin(op, cst(l), cst(r)), data: []any{int64(0)}, stream: "boundary"})
+					emit(kase{t: bin(op, pth(pathL), cst(r)), data: []any{elemLR(l, nothingV{})}, stream: "boundary"})
+					emit(kase{t: bin(op, cst(l), pth(pathR)), data: []any{elemLR(nothingV{}, r)}, stream: "boundary"})
+					n += 4
+				}
+			}
+		}
+	}
+	return
+}
